@@ -18,6 +18,22 @@ def plan(tier, seed):
     for pat in (sparse3 if tier == 'thorough' else rnd.sample(sparse3, 10)):
         k += 1
         qs.append(fullx_query('C08', 3, pat, perms(3)[k % 6], (0, 1, 2), CONFIGS[k % 8], trans=k % 3, scen=1, usepr=k % 2, timeout=600))
+    # re-factorization whose new values lead to a DIFFERENT pivot sequence (second preference order): the structure and the
+    # supernode partition of the reused L/U change; usepr = NO
+    pats3 = [p for p in all_patterns(3) if 5 <= bin(p).count('1') <= 7]
+    for pat in (pats3 if tier == 'thorough' else rnd.sample(pats3, 24)):
+        k += 1
+        pv = perms(3)[k % 6]; pv2 = perms(3)[(k + 1 + k // 6 % 5) % 6]
+        if pv2 == pv: pv2 = tuple(reversed(pv))
+        q = fullx_query('C08', 3, pat, pv, (0, 1, 2), CONFIGS[k % 8], trans=k % 3, scen=1, usepr=0, timeout=600, tagx='.pv2_' + ''.join(map(str, pv2)))
+        q.defs['VH_PIVPREF2'] = cinit(pv2)
+        q.group = 'expert driver factor / re-factor with different pivots / reuse n=3'
+        qs.append(q)
+    for pv, pv2 in (((0, 1), (1, 0)), ((1, 0), (0, 1))):
+        k += 1
+        q = fullx_query('C08', 2, 0xf, pv, (0, 1), CONFIGS[k % 8], trans=k % 3, scen=1, usepr=0, tagx='.pv2_' + ''.join(map(str, pv2)))
+        q.defs['VH_PIVPREF2'] = cinit(pv2); q.group = 'expert driver factor / re-factor with different pivots / reuse n=2'
+        qs.append(q)
     # the real pivotL with a prescribed row order: old pivot kept iff it passes the threshold, otherwise a valid new one (usepr dropped)
     qs += [q for q in pivot_queries('C08', 'quick') if '.u1' in q.name and '.c2.' not in q.name]
     return qs
@@ -26,10 +42,10 @@ META = {
     'level': 'model_checking',
     'engines': 'E2 (Real): the real expert driver called three times in one query (factor, re-factor with new symbolic values, solve with supplied factors); real pivotL unit for the row-order reuse policy',
     'bounds': {'call sequence': 'first factorization -> re-factorization (refact = YES, usepr yes/no, new values) -> FACTORED solve with new B; n<=2 all patterns x pivot orders x trans x storage, n=3 patterns with <= 5 entries (10 sampled in quick)',
-               'pivot reuse policy': 'as C02 pivotL unit with usepr = YES (old pivot present / absent / failing the threshold)',
+               'different pivots': 'n=2 dense both ways, n=3 24 sampled patterns with 5..7 entries (thorough: all): the re-factorization follows a second pivot preference order', 'pivot reuse policy': 'as C02 pivotL unit with usepr = YES (old pivot present / absent / failing the threshold)',
                'induction': 'each call leaves the persistent state (option arrays, L/U storage, static sizes) as the next call expects it: asserted by running the next call on it'},
     'outside': ['histories longer than three calls (covered only through the state the second call leaves for the third)', 'user-supplied workspace in the re-factorization (allocator C14)', 'n > 3', 'rounding'],
-    'assumptions': ['pivot choice forced in the driver queries (so the re-factorization repeats the old pivots: the "old pivots pass the threshold" branch); the other branch is decided on the real pivotL',
+    'assumptions': ['pivot choice forced in the driver queries (first family: the re-factorization repeats the old pivots; second family: it follows a different order); which branch the real pivotL takes is decided on the pivotL unit',
                     'allocator entry points typed stubs incl. the refact = YES rebinding of the arrays inside L/U'],
     'trusted_base': ['cbmc 6.11', 'tools/fp2alg.py', 'z3'],
 }
